@@ -19,7 +19,7 @@ import (
 
 func init() {
 	Register(&Rule{ID: "R-KEY-1", Props: []string{"C04", "C17"}, Floor: 8,
-		Doc: "free text is framed: every write into a comparison-key buffer (functions reachable from SerializeComparisonKeys, SerializeKey, SerializeIdenticalKey, SortValues.Serialize) is a constant tag, a numeric rendering, an already serialised key, or text that passed through an escaper handling both the component separator and its own escape character — otherwise two different tuples can share a key",
+		Doc:      "free text is framed: every write into a comparison-key buffer (functions reachable from SerializeComparisonKeys, SerializeKey, SerializeIdenticalKey, SortValues.Serialize) is a constant tag, a numeric rendering, an already serialised key, or text that passed through an escaper handling both the component separator and its own escape character — otherwise two different tuples can share a key",
 		Controls: []string{"CtlRawTextInKey"},
 		Run:      ruleKey1})
 	Register(&Rule{ID: "R-KEY-2", Props: []string{"C04"}, Floor: 2,
